@@ -376,6 +376,13 @@ class BaseDiscretizer(BaseEstimator, TransformerMixin):
 
         return X
 
+    def _check_is_not_fitted(self) -> None:
+        """Checks that the discretizer has not been fitted yet"""
+        assert not self.is_fitted, (
+            " - [Discretizer] This Discretizer has already been fitted. "
+            "Fitting it anew could break established orders. Please initialize a new one."
+        )
+
     def fit(self, X: DataFrame = None, y: Series = None) -> None:
         """Learns simple discretization of values of X according to values of y.
 
